@@ -1,5 +1,7 @@
 import WpModel.Drive.Loop
 import WpModel.Drive.BoxModel
 import WpModel.Drive.BoxEdges
+import WpModel.Drive.Paginate
 
-def main : IO Unit := Wp.Drive.runDriver [Wp.Drive.BoxModel.handle, Wp.Drive.BoxEdges.handle]
+def main : IO Unit :=
+  Wp.Drive.runDriver [Wp.Drive.BoxModel.handle, Wp.Drive.BoxEdges.handle, Wp.Drive.Paginate.handle]
